@@ -27,6 +27,7 @@ type lookupGen struct {
 	EnumN  int     // the first EnumN patterns of the pool are combined exhaustively
 	Extra  [][]int // tables larger than MaxTab, as 1-based pool indices
 	Fixes  []string
+	Collect bool // witness collection: every disagreement is reported instead of stopping at the first
 }
 
 func (g *lookupGen) tla() string {
@@ -50,6 +51,7 @@ func (g *lookupGen) tla() string {
 		fx = append(fx, tlaStr(f))
 	}
 	b.WriteString("GenFixes == {" + strings.Join(fx, ", ") + "}\n")
+	b.WriteString("GenCollect == " + tlaBool(g.Collect) + "\n")
 	b.WriteString("====\n")
 	return b.String()
 }
@@ -65,6 +67,7 @@ var lookupCorePool = []string{
 	"/a", "/a/", "/{x}", "/{x}/", "/a/{y}", "/*{w}", "/a/*{w}", "/*{w}/b", "/ab", "/a{x}", "/{x}/b", "/b", "/b/",
 	"/{x}/{y}", "/a/b", "/*{w}/{y}", "/ab/", "/abb", "/b{y}/*{y}/", "/a/a/a*{x}/",
 	"/{x}/b/", "/{x}/bb", "/ab/b/", "/a/b/",
+	"/a*{x}/b", "/a*{x}", "/a/{x}/b", "/a/*{w}/b",
 }
 
 // witnesses of F1 and F5 need four routes, or routes outside the core pool
